@@ -832,7 +832,16 @@ class _Gen:
             return rng.random() < 0.5
         if k == "cmpnum":
             op = rng.choice(["<", ">", "<=", ">=", "==", "!="])
-            return {"binOp": op, "left": self.gen_num(depth - 1, lv), "right": self.gen_num(depth - 1, lv)}
+            sides = [self.gen_num(depth - 1, lv), self.gen_num(depth - 1, lv)]
+            for n in (0, 1):
+                # parenthesised terms (also a parenthesised single path, nested parentheses) as operands
+                if isinstance(sides[n], dict) and rng.random() < 0.4:
+                    sides[n] = self.paren(sides[n])
+                    if rng.random() < 0.15:
+                        sides[n] = self.paren(sides[n])
+                elif isinstance(sides[n], list) and rng.random() < 0.1:
+                    sides[n] = self.paren(sides[n])
+            return {"binOp": op, "left": sides[0], "right": sides[1]}
         if k == "booleq":
             other = self.epath("boolean", lv) if rng.random() < 0.4 else (rng.random() < 0.5)
             sides = [bpath, other]
